@@ -15,6 +15,7 @@ import (
 	"os"
 	"strings"
 	"testing"
+	"time"
 
 	"github.com/cbeuw/Cloak/internal/common"
 	log "github.com/sirupsen/logrus"
@@ -167,4 +168,6 @@ func TestVerifC09(t *testing.T) {
 		// process dies, and the first case without a line is the input that killed it
 		w.Flush()
 	}
+	// let a goroutine that is about to die (panic outside every recover) do so while the process is still there
+	time.Sleep(30 * time.Millisecond)
 }
